@@ -372,11 +372,34 @@ pub fn run_contexts(out: &mut Out, cfg: &Cfg, seed: u64, n: usize) {
                     "1 2", "1.5 2", "12 ", " 12", "- 3", "12\u{a0}", "1\u{2003}2", "1\t2", "+", "+ 7", "7+", "-.5", "5.", "0", "-0", "9223372036854775807", "9223372036854775808", "-9223372036854775808",
                     "$Ω", "$é1", "$_x", "$_", "\\,", "a\\,b", "\"1 2\"", "\"12\"", "a\\b", "OK\\, sure", "\\5", "1\\2", "x\\;y", "\\a",
                     "(1)2", "[1]2", "(a)1", "1[2]", "1(2)3", "(1)", "(12)", "2(1)", "1\"a\"", "a\"b\"", "a\"b", "\"a\"b",
+                    "\":)\"", "\"(\"", "\"a)b\"", "\"[x\"", "a\\)b", "x\\(y", "\"smile :)\"", "\"a, b\"", "\"]\"",
                     "$X + 1", "1 + 2", "$A * $B", "a - b", "6 / 3", "1.5 + $X",
                     "555-1234", "2023-01-05", "10+20", "1.5-2.5", "7-", "-7-", "1e-5", "3-a", "a-3", "--3", "+-3"];
     for i in 0..n {
         let text = if i % 3 == 0 { (*r.pick(&specials)).to_string() } else { let mut g = Gen{r: &mut r, depth: 2}; g.term(0).0 };
-        if !out.begin() { continue; }
+        emit_context(out, cfg, &text);
+    }
+}
+
+/// ALL strings up to `maxlen` over the characters the scanners treat specially, each in every context
+pub fn run_exhaustive_contexts(out: &mut Out, cfg: &Cfg, maxlen: usize, shard: usize, nshards: usize) {
+    let alpha: Vec<char> = vec!['a', '1', '.', '-', '"', '\\', '(', ')', '[', ']', ' ', '$'];
+    let mut idx = 0usize;
+    for len in 1..=maxlen {
+        let total = alpha.len().pow(len as u32);
+        for code in 0..total {
+            idx += 1; if idx % nshards != shard { continue; }
+            let mut c = code; let mut s = String::new();
+            for _ in 0..len { s.push(alpha[c % alpha.len()]); c /= alpha.len(); }
+            emit_context(out, cfg, &s);
+        }
+    }
+}
+
+fn emit_context(out: &mut Out, cfg: &Cfg, text: &str) {
+    let text = text.to_string();
+    {
+        if !out.begin() { return; }
         let id = out.case(&format!("contexts {}", hex(&text)));
         let zero_ids = |t: &Unifiable| -> String { crate::suite_misc::zero_ids_pub(t) };
         let alone = run_entry("term", &text);
@@ -412,6 +435,25 @@ pub fn run_contexts(out: &mut Out, cfg: &Cfg, seed: u64, n: usize) {
             let unescaped = { let cs: Vec<char> = text.chars().collect(); let mut o = String::new(); let mut i = 0;
                 while i < cs.len() { if cs[i] == '\\' && i + 1 < cs.len() { i += 2; o.push('x'); } else { o.push(cs[i]); i += 1; } } o };
             let escape_inside = text.contains('\\') && text.chars().count() > 2;
+            // a text can only be put inside a larger one when its parentheses, brackets and quotes are closed and it does not end in an escape
+            // (scanned the way parse_arguments() scans an argument)
+            let (embeddable, nested_special) = {
+                let cs: Vec<char> = text.trim().chars().collect();
+                let (mut r, mut q, mut oq, mut ok, mut nested, mut i) = (0i32, 0i32, false, true, false, 0usize);
+                while i < cs.len() {
+                    let c = cs[i];
+                    if oq { if c == '"' { oq = false; } else if c == '\\' && i + 1 < cs.len() && cs[i + 1] == '"' { nested = true; } }
+                    else if c == '[' { q += 1; } else if c == ']' { q -= 1; } else if c == '(' { r += 1; } else if c == ')' { r -= 1; }
+                    else if r == 0 && q == 0 {
+                        if c == '"' { oq = true; }
+                        else if c == '\\' { if i + 1 < cs.len() { i += 1; } else { ok = false; } }
+                    } else if c == '"' || c == '\\' { nested = true; }
+                    if c == '\\' && i > 0 && cs[i - 1] == '\\' { nested = true; }   // an escaped backslash
+                    if r < 0 || q < 0 { ok = false; }
+                    i += 1;
+                }
+                (ok && r == 0 && q == 0 && !oq, nested)
+            };
             let single = res.iter().any(|x| x.starts_with("ok ")) && !unescaped.contains(',') && !text.contains('|') && !text.contains(" = ") && !text.contains(" + ") && !text.contains(" - ") && !text.contains(" * ") && !text.contains(" / ");
             let arith = [" + ", " - ", " * ", " / "].iter().any(|op| text.contains(op)) && !text.contains(',') && !text.contains('|') && !text.contains(" = ");
             if arith && matches!(alone, Parsed::Term(Unifiable::SFunction{..})) {
@@ -421,11 +463,11 @@ pub fn run_contexts(out: &mut Out, cfg: &Cfg, seed: u64, n: usize) {
                 let k = res.iter().position(|x| *x != res[0]).unwrap_or(0);
                 out.oracle(id, "C20", all_same, &format!("text with a top-level arithmetic infix: `{}` {} is {} but {} it is {}", text, names[0], crate::tools_pretty(&res[0]), names[k], crate::tools_pretty(&res[k])));
             } else
-            if single || text.starts_with('[') || text.ends_with(')') {
+            if embeddable && (single || text.starts_with('[') || text.ends_with(')')) {
                 let all_same = res.iter().all(|x| *x == res[0]);
                 let names = ["alone", "as argument", "as list element", "as infix operand", "as query argument", "as an argument after a float", "as an argument among other arguments", "as a list element after a float"];
                 let k = res.iter().position(|x| *x != res[0]).unwrap_or(0);
-                let what = if escape_inside { "text with a backslash escape inside it: " } else { "" };
+                let what = if nested_special { "text with a quotation mark or a backslash inside its parentheses, brackets or quotes: " } else if escape_inside { "text with a backslash escape inside it: " } else { "" };
                 out.oracle(id, "C20", all_same, &format!("{}`{}` {} is {} but {} it is {}", what, text, names[0], crate::tools_pretty(&res[0]), names[k], crate::tools_pretty(&res[k])));
             }
         }
